@@ -19,7 +19,7 @@ from engine import slicer, pipeline
 
 REPO = os.environ.get('VERIF_REPO', '/repo')
 BUILD = os.path.join(VERIF, 'build')
-UNITS = ['core', 'pred', 'ans', 'seqmesh', 'meta', 'bitcoders', 'symbols', 'quant', 'guards']
+UNITS = ['core', 'pred', 'ans', 'seqmesh', 'meta', 'bitcoders', 'bitcoders2', 'symbols', 'quant', 'guards']
 NCPU = int(os.environ.get('VERIF_JOBS', '16'))
 
 def load_unit(name):
